@@ -484,6 +484,26 @@ def run(ctx):
         except Raised as e:
             outg_ = f"raises {e.exc_name}{e.exc_args}"
         r4.check(outg_ == (["__last-saved"] if who_ != "nobody" else []), f"_generate_instances[last-saved used by: {who_}]", "the last-saved instance is declared exactly when some element - of any kind - uses it", gi.loc(), why_fail=repr(outg_))
+    # one element may need several instances: a select from a file whose choice filter uses last-saved (and a pulldata in
+    # its constraint) gets all of them, wherever it stands among the other elements
+    def _info9(name_, src_, typ_="file"):
+        return Obj(None, {"name": name_, "src": src_, "type": typ_, "context": "c", "instance": NodeVal("instance", attrs={"id": name_, "src": src_})}, name=f"info:{name_}")
+    for pos_ in (0, 1, 2):
+        selq_ = _mk7b(ctx, mq, "sel", type="select one")
+        others_ = [_mk7b(ctx, iq_, "t1", type="text"), _mk7b(ctx, iq_, "t2", type="text")]
+        order_ = others_[:pos_] + [selq_] + others_[pos_:]
+        hooks2_ = {"fnname:node": node_hook, "fnname:iter_descendants": lambda i, a, k, n, order_=order_: list(order_),
+                   "fnname:_generate_pulldata_instances": lambda i, a, k, n, selq_=selq_: GenList([_info9("prices", "jr://file-csv/prices.csv", "pulldata")] if k.get("element", a[-1] if a else None) is selq_ else []),
+                   "fnname:_generate_from_file_instances": lambda i, a, k, n, selq_=selq_: _info9("cities", "jr://file-csv/cities.csv") if k.get("element", a[-1] if a else None) is selq_ else None,
+                   "fnname:_generate_last_saved_instance": lambda i, a, k, n, selq_=selq_: k.get("element", a[-1] if a else None) is selq_,
+                   "fnname:_get_last_saved_instance": lambda i, a, k, n: _info9("__last-saved", "jr://instance/last-saved", "instance"), "fnname:_generate_static_instances": lambda i, a, k, n: None}
+        itg2_ = ctx.interp("C09.R4", hooks=hooks2_)
+        itg2_.reset([])
+        try:
+            out2_ = sorted(x.attrs.get("id") for x in itg2_.call_function(gi, [Obj(scls, {"choices": None}, name="survey")], {}, None, gi.node) if isinstance(x, NodeVal))
+        except Raised as e:
+            out2_ = f"raises {e.exc_name}{e.exc_args}"
+        r4.check(out2_ == ["__last-saved", "cities", "prices"], f"_generate_instances[one select needs a file, a pulldata and last-saved; position {pos_}]", "all three instances are declared", gi.loc(), why_fail=repr(out2_))
     rules.append(r4)
 
     # ------------------------------------------------------------------ R5
